@@ -40,8 +40,11 @@ RULE = ("exhaustive grids, nothing sampled: (A) create_node on each of the 66 no
         "sorts named Int/Real/Bool/String/BV{8}, nullary |Pair{Int}| next to Pair(Int), a declared Array/2) compared by "
         "declaration identity; quantifier binder lists of length 1-3 mixing plain symbols, function symbols and "
         "non-symbols in every position; both grids also with the SAME node in two or all argument positions (same symbol, "
-        "constant, compound term of every sort); (H) random create_node histories against Impl/CreateNode; (T) random well-typed formulas "
-        "through simplify/substitute/nnf/prenex/aig/cnf/ackermannize/parse(print). A case is non-trivial when the application "
+        "constant, compound term of every sort); (H) random create_node histories against Impl/CreateNode; (R) every grid call rejected with an exception "
+        "other than PysmtTypeError, and every 5th of the others (residue = seed mod 5; thorough tier: all of them), is attempted a second and third time "
+        "on the same environment and must be rejected again; (T) random well-typed formulas "
+        "(R) every grid call rejected with an exception other than PysmtTypeError, and every 5th of the others, is attempted "
+        "a second and third time on the same environment; through simplify/substitute/nnf/prenex/aig/cnf/ackermannize/parse(print). A case is non-trivial when the application "
         "is accepted by the implementation or by the sorting rules (not rejected by both), a transformation case when the "
         "result differs from the input; distinct = distinct (constructor, sorts, parameters) / (transformation, formula)")
 ASSUMPTIONS = [
@@ -685,9 +688,29 @@ def outcome_of(fn):
         return ("err", type(e).__name__)
 
 
+REPEAT_STRIDE = 5
+
+
+def repeat_rejected(res, idx, off, call, describe):
+    """the "repeat" dimension: a rejected call is attempted a second and a third time on the SAME
+    environment (every call rejected with a class other than PysmtTypeError, every 5th of the others --
+    residue chosen by the seed; all of them when off is None): the rejection must repeat.
+    Returns res extended by the tuple of the later outcomes."""
+    if res[0] != "err":
+        return res
+    if off is not None and res[1] == "PysmtTypeError" and idx % REPEAT_STRIDE != off:
+        return res
+    later = []
+    for _ in range(2):
+        r2 = outcome_of(call)
+        later.append(("ok", describe(r2[1])) if r2[0] == "ok" else ("err", r2[1]))
+    return (res[0], res[1], tuple(later))
+
+
 def run_grid_a_op(job):
     """worker: all grid-A cases of one operator -> list of (sorts, payload, raw tree, impl outcome)"""
-    o, tier = job
+    o, tier = job[0], job[1]
+    off = job[2] if len(job) > 2 else None
     env = Environment()
     mgr = env.formula_manager
     nt = wire.OPID[o]
@@ -709,11 +732,17 @@ def run_grid_a_op(job):
     cases += [(ss, p, False) for n_ in (1, 2) for ss in itertools.product(UC, repeat=n_) for p in few]
     if o in ("ite", "arrayStore", "function", "arrayValue"):
         cases += [(ss, p, False) for ss in itertools.product(UC, repeat=3) for p in big]
-    for ss, p, same in cases:
+    def describe(f):
+        try:
+            return sort_name(from_pysmt(env.stc.get_type(f)))
+        except Exception as e:          # noqa
+            return "get_type:" + type(e).__name__
+    for idx, (ss, p, same) in enumerate(cases):
         if p not in pcache:
             pcache[p] = real_payload(env, o, p)
         args = tuple(real_sym(0 if same else i, s) for i, s in enumerate(ss))
-        res = outcome_of(lambda: mgr.create_node(nt, args, pcache[p]))
+        call = lambda: mgr.create_node(nt, args, pcache[p])      # noqa
+        res = repeat_rejected(outcome_of(call), idx, off, call, describe)
         if res[0] == "ok":
             try:
                 res = ("ok", from_pysmt(env.stc.get_type(res[1])))
@@ -1617,13 +1646,21 @@ def has_fn_term(t):
 
 def run_grid_b_ctor(job):
     """worker: all grid-B cases of one constructor"""
-    name, tier = job
+    name, tier = job[0], job[1]
+    off = job[2] if len(job) > 2 else None
     env = Environment()
     out = []
     import warnings
     warnings.simplefilter("ignore")
-    for args, extra in grid_b_cases(name, tier):
-        res = outcome_of(lambda: call_ctor(env, name, args, extra))
+
+    def describe(f):
+        try:
+            return sort_name(from_pysmt(env.stc.get_type(f)))
+        except Exception as e:          # noqa
+            return "get_type:" + type(e).__name__
+    for idx, (args, extra) in enumerate(grid_b_cases(name, tier)):
+        call = lambda: call_ctor(env, name, args, extra)         # noqa
+        res = repeat_rejected(outcome_of(call), idx, off, call, describe)
         raw = None
         if res[0] == "ok":
             f = res[1]
@@ -1826,6 +1863,23 @@ def payload_key(p):
     return p[0]
 
 
+def judge_repeat(ctx, res, sig, what, replay):
+    """S: a rejected application must be rejected again when it is attempted again on the same environment"""
+    if res[0] != "err" or len(res) < 3:
+        return
+    ctx.count("repeat_checked")
+    later = res[2]
+    if any(r[0] == "ok" for r in later):
+        ctx.report_s(dict(sig, oracle="repeat", kind="rejected-then-accepted", error=res[1]),
+                     "%s raised %s on the first attempt; the same call on the same environment then gave %s"
+                     % (what, res[1], ", ".join("%s %s" % r for r in later)), dict(replay, later=repr(later)))
+    elif any(r[1] != res[1] for r in later):
+        ctx.report_s(dict(sig, oracle="repeat", kind="error-class-changed", error=res[1],
+                          later="/".join(r[1] for r in later)),
+                     "%s raised %s on the first attempt, then %s" % (what, res[1], ", ".join(r[1] for r in later)),
+                     dict(replay, later=repr(later)))
+
+
 def judge_grid_a(ctx, judge, results):
     for ss, p, raw, res in results:
         o = raw[0]
@@ -1837,6 +1891,8 @@ def judge_grid_a(ctx, judge, results):
                   "impl": repr(res), "rules": repr(rk), "term": show_raw(raw)}
         ctx.case(("A", show_raw(raw), payload_key(p)) if (impl_ok or rk is not None) else None)
         ctx.count("A_" + ("ok" if impl_ok else "err"))
+        judge_repeat(ctx, res, {"via": "create_node", "op": o, "shape": "%s(%s) payload %s" % (o, sorts_key(ss), payload_key(p))},
+                     "create_node(%s) on (%s) payload %s" % (o, sorts_key(ss), payload_key(p)), replay)
         # ---- S: the implementation against the sorting rules
         hole = classify_node(o, p, ss)
         hk = homonym_key(list(sorts_of_raw(raw)))
@@ -1957,6 +2013,8 @@ def judge_grid_b(ctx, judge, name, results):
         if impl_ok and len(ctx.samples) < 4 and len(args) >= 2 and not any(
                 isinstance(x, dict) and x.get("ctor") == name for x in ctx.samples):
             ctx.sample({"ctor": name, "sorts": replay["sorts"], "extra": replay["extra"], "type": sort_name(impl_ty)})
+        judge_repeat(ctx, res, {"via": "constructor", "ctor": name, "shape": shape},
+                     "%s on (%s)%s" % (name, sorts_key(ss), extra_key(extra)), replay)
         # ---- S
         allsorts = set()
         for a_ in args:
@@ -2395,7 +2453,7 @@ def run(ctx):
     judge = Judge(ctx)
     t0 = time.time()
     # ---- grid A
-    res_a = _pool_map(ctx, run_grid_a_op, [(o, tier) for o in wire.OPNAMES])
+    res_a = _pool_map(ctx, run_grid_a_op, [(o, tier, ctx.seed % REPEAT_STRIDE if tier == "quick" else None) for o in wire.OPNAMES])
     for r in res_a:
         judge_grid_a(ctx, judge, r)
     ctx.extra["grid_a_calls"] = sum(len(r) for r in res_a)
@@ -2404,7 +2462,7 @@ def run(ctx):
     judge.flush()
     # ---- grid B
     t1 = time.time()
-    res_b = _pool_map(ctx, run_grid_b_ctor, [(n, tier) for n in ALL_GRID_CTORS])
+    res_b = _pool_map(ctx, run_grid_b_ctor, [(n, tier, ctx.seed % REPEAT_STRIDE if tier == "quick" else None) for n in ALL_GRID_CTORS])
     for name, r in zip(ALL_GRID_CTORS, res_b):
         judge_grid_b(ctx, judge, name, r)
     ctx.extra["grid_b_calls"] = sum(len(r) for r in res_b)
